@@ -564,14 +564,16 @@ public:
 
     friend inline Raster pow(const Raster& image, double value)
     {
-        image.for_each([value](Number& a) { a = std::pow(a, value); });
-        return image;
+        Raster out(image);
+        out.for_each([value](Number& a) { a = std::pow(a, value); });
+        return out;
     }
 
     friend inline Raster sqrt(const Raster& image)
     {
-        image.for_each([](Number& a) { a = std::sqrt(a); });
-        return image;
+        Raster out(image);
+        out.for_each([](Number& a) { a = std::sqrt(a); });
+        return out;
     }
 
     friend inline std::ostream& operator<<(std::ostream& stream, const Raster& image)
